@@ -10,7 +10,6 @@ emitted gates exactly, one gate per step, and decides the documented relation (e
 columns; equality up to a global phase; equality of the block-encoded block).  TLC prints the exact target, against which
 qp.matrix(template) and off-lattice decompositions (float bridge) are compared numerically; for qsvt / GQSP / FABLE /
 BlockEncode TLC computes the exact polynomial of the exact matrix / the exact block and the comparison is numeric."""
-import itertools
 import json
 import math
 import random
